@@ -531,7 +531,8 @@ def oracle(case, io):
                 return dict(kind='rejected-op-changed-the-object', **where)
             continue
         bad = _check_exc(ob)
-        if not bad and op[0] == SETLEN:      # name the set_length defect before the invariant it breaks
+        if not bad and op[0] == SETLEN and ob[4] == len(ob[1]) and (cls != 5 or len(ob[8]) == len(ob[9])):
+            # name the set_length defect before the invariant it breaks
             bad = _check_op(cls, op, prev, ob, pad)
         bad = bad or _check_state(cls, ob) or _check_op(cls, op, prev, ob, pad)
         if bad:
